@@ -32,11 +32,14 @@ KIND_BY_TYPE = {0: 'u', 1: 's', 2: 'c', 3: 'i', 4: 'm', 5: 'f', 6: 'p', 10: 'n',
 FIXED = '1'          # the model variant that matches /repo (see MODEL_FIXED below)
 
 
+_RAISING = True
+
+
 def _setup():
     import css_parser
     import logging
     css_parser.log.setLevel(logging.FATAL)
-    css_parser.log.raiseExceptions = True
+    css_parser.log.raiseExceptions = _RAISING
     return css_parser
 
 
@@ -256,9 +259,18 @@ def cont_obj(code):
     return tmp.cssRules[0]
 
 
-def cont_run(case):
+def cont_run(case, raising=True):
+    global _RAISING
     which, hist = case
-    cp = _setup()
+    _RAISING = raising
+    try:
+        return _cont_run(_setup(), which, hist)
+    finally:
+        _RAISING = True
+        _setup()
+
+
+def _cont_run(cp, which, hist):
     rule = cp.css.CSSMediaRule(mediaText='print') if which == 'm' else cp.css.CSSPageRule()
     outs = []
     for op in hist:
@@ -306,6 +318,12 @@ def cont_oracle(case, _e=None):
         if res.endswith('Err') and kinds != prev:
             return 'container op %d was rejected (%s) but changed the child list' % (n, res)
         prev = kinds
+    # with a log that does not raise a refused call is reported through the log only: the child list must be the same
+    quiet = cont_run(case, raising=False)
+    for n, (a, b) in enumerate(zip(cont_run(case), quiet)):
+        if a.split(';')[1] != b.split(';')[1]:
+            return 'container op %d leaves the children %r with a raising log and %r with a logging one' % (
+                n, a.split(';')[1], b.split(';')[1])
     return ''
 
 
